@@ -1,5 +1,10 @@
 package PVM
 
+// selfJump is returned in place of the target when a taken jump lands on its own instruction.
+// Both engines recognise a taken branch by "returned counter != current counter"; without the
+// marker a jump to its own address would be mistaken for "not taken" and fall through.
+const selfJump = ^ProgramCounter(0)
+
 func branch(pc ProgramCounter, b ProgramCounter, C bool, bitmask Bitmask, instruction ProgramCode) (ExitReason, ProgramCounter) {
 	switch {
 	case !C:
@@ -9,6 +14,8 @@ func branch(pc ProgramCounter, b ProgramCounter, C bool, bitmask Bitmask, instru
 		return ExitPanic, pc
 	case !bitmask.IsStartOfBasicBlock(b) && instruction.isOpcodeValid(b):
 		return ExitPanic, pc
+	case b == pc:
+		return ExitContinue, selfJump
 	default:
 		return ExitContinue, b
 	}
@@ -52,5 +59,8 @@ func djump(pc ProgramCounter, a uint32, jumpTable JumpTable, bitmask Bitmask) (E
 		return ExitPanic, pc
 	}
 
+	if newPC == pc {
+		return ExitContinue, selfJump
+	}
 	return ExitContinue, newPC
 }
